@@ -384,22 +384,41 @@ def rule_q3_q5_q6(ck, prog, S, cfg):
     st = K.site(add, "text-failure-not-fatal", 0)
     adds = [c for c in add.calls("fifo_add")]
     dups = [c for c in add.calls() if c.get("callee") in DUP_CALLS]
+    host, hostadds = add, adds
+    if not dups:
+        # the text may be duplicated by the caller, which then hands the finished entry over
+        dups = [c for c in push.calls() if c.get("callee") in DUP_CALLS]
+        if dups:
+            host, hostadds = push, list(push.calls("SCPI_ErrorAddInternal"))
+            pga = S.pg(add)
+            if adds and pga.exit in pga.reachable([pga.entry], blocked_edge=lambda e: e.kind == "elem" and e.node in adds):
+                ck.violated("C10-Q5", K.site(add, "always-queues", 0), K.loc(add), "a path of SCPI_ErrorAddInternal returns without trying to queue the entry")
     if cfg != "B":
-        if not dups:
-            ck.anchor_lost("C10-Q5", "no text duplication in SCPI_ErrorAddInternal")
+        if not dups or not hostadds:
+            ck.anchor_lost("C10-Q5", "no text duplication in SCPI_ErrorAddInternal / SCPI_ErrorPushEx")
         else:
+            add_, adds_ = add, adds
+            add, adds = host, hostadds
             first = K.ordinal_sites(adds)[0]
             facts = K.facts_at(S, add, first) or []
+            holders = {"info_ptr"}
+            for d_ in dups:
+                par = add.parent_of(d_)
+                while par is not None and par.k in ("ImplicitCastExpr", "ParenExpr", "CStyleCastExpr"):
+                    par = add.parent_of(par)
+                if par is not None and par.get("op") == "=":
+                    holders.add(par.child(0).strip().get("path"))
             dep = [a.src for a, pol in facts if not isinstance(pol, tuple) and
-                   any(x.get("path") in ("info_ptr",) or (x.k == "CallExpr" and x.get("callee") in DUP_CALLS) for x in a.walk())]
+                   any(x.get("path") in holders or (x.k == "CallExpr" and x.get("callee") in DUP_CALLS) for x in a.walk())]
             pg = S.pg(add)
             reach = pg.reachable([pg.entry], blocked_edge=lambda e: e.kind == "elem" and e.node is first)
+            add, adds = add_, adds_
             if dep:
-                ck.violated("C10-Q5", st, K.loc(add, first), "queuing the error depends on the text duplication: %s" % dep)
+                ck.violated("C10-Q5", st, K.loc(host, first), "queuing the error depends on the text duplication: %s" % dep)
             elif pg.exit in reach:
-                ck.violated("C10-Q5", st, K.loc(add, first), "a path returns without trying to queue the error")
+                ck.violated("C10-Q5", st, K.loc(host, first), "a path returns without trying to queue the error")
             else:
-                ck.holds("C10-Q5", st, K.loc(add, first), "fifo_add is reached on every path, independent of the duplication result")
+                ck.holds("C10-Q5", st, K.loc(host, first), "the queue insertion is reached on every path, independent of the duplication result")
     # Q6
     st = K.site(pop, "preset", 0)
     pgp = S.pg(pop)
